@@ -15,6 +15,7 @@ func init() {
 }
 
 func checkC07(c *Ctx, r *Report) {
+	defer checkProcessWideState(c, r, "C07.e")
 	w := c.W
 	r.NotDecided = append(r.NotDecided, "reachability closure of the type graph ('and no others')", "JSON visibility of fields as computed by the struct visitor", "the type-string to schema mapping")
 	r.Assume = append(r.Assume, "a *openapi3.SchemaRef obtained from InterfaceToSchemaRef (or received as a parameter) may share its Value with components.schemas; one built from a literal / ToOpenApiSchemaRef does not")
